@@ -255,6 +255,7 @@ func init() {
 		"internal/bytealg.IndexByteString": func(fr *frame, a []value) value { return strings.IndexByte(str(a[0]), a[1].(uint8)) },
 		"internal/bytealg.CountString":     func(fr *frame, a []value) value { return strings.Count(str(a[0]), string([]byte{a[1].(uint8)})) },
 		"internal/bytealg.IndexString":     func(fr *frame, a []value) value { return strings.Index(str(a[0]), str(a[1])) },
+		"strings.ToValidUTF8":              func(fr *frame, a []value) value { return strings.ToValidUTF8(str(a[0]), str(a[1])) },
 		"strings.Fields":                   func(fr *frame, a []value) value { return toValSlice(strings.Fields(str(a[0]))) },
 		"strings.TrimSpace":                func(fr *frame, a []value) value { return strings.TrimSpace(str(a[0])) },
 		"strings.TrimPrefix":               func(fr *frame, a []value) value { return strings.TrimPrefix(str(a[0]), str(a[1])) },
